@@ -11,7 +11,7 @@
    history, every thread count and every FileSys behaviour. *)
 From stdpp Require Import gmap.
 From Coq Require Import List NArith.
-From P9 Require Import Model.SessLock Proofs.SessLockProofs Proofs.SessLockProofsLin.
+From P9 Require Import Model.SessLock Proofs.SessLockProofs Proofs.SessLockProofsLin Proofs.SessLockProofsScopes.
 
 (* "After any operation returns, successfully or not, no fid is left locked" - structurally: on every
    path of every method (every answer of every table/field/FileSys action, all error returns) each lock
@@ -151,3 +151,8 @@ Proof. exact ex_lin_rejects. Qed.
 (* the exhaustive exploration finds the pre-fix delRef's non-linearizable interleaving (4 operations) *)
 Example C14_small_scopes_reject_old_delRef : fst old_delref_scenario = false.
 Proof. exact old_delref_not_linearizable. Qed.
+
+(* why the property excludes "the same new fid allocated from two requests at once": such a history (second
+   attach = duplicate fid, first attach then fails) has no sequential explanation *)
+Example C14_side_condition_needed : lin_check false ex_hist_double_alloc = None.
+Proof. exact double_alloc_not_linearizable. Qed.
